@@ -1,7 +1,7 @@
 (* Properties/C16.v — Log blooms have no false negatives and log queries are exact.
    Only statements closed by `exact`, with Print Assumptions under each.
    H is the hash (crypto.Keccak256 in the code): every theorem holds for every H. *)
-From AQ Require Import Lib.Bytes Lib.Keccak Generated.GenParamsBloom Bloom.BloomModel Bloom.FilterModel Bloom.BloomProofs Bloom.FilterProofs Bloom.ByteModel Bloom.ByteProofs Bloom.IndexerModel Bloom.IndexerProofs Bloom.BitutilModel Bloom.BitutilProofs Bloom.EndToEndProofs.
+From AQ Require Import Lib.Bytes Lib.Keccak Generated.GenParamsBloom Bloom.BloomModel Bloom.FilterModel Bloom.BloomProofs Bloom.FilterProofs Bloom.ByteModel Bloom.ByteProofs Bloom.IndexerModel Bloom.IndexerProofs Bloom.BitutilModel Bloom.BitutilProofs Bloom.EndToEndProofs Bloom.SectionProofs.
 Local Open Scope N_scope.
 
 (* every address and every topic of every log of the receipts tests positive in
@@ -136,6 +136,35 @@ Theorem C16_process_section_ok_partial :
       N.testbit (nth i rows 0) k = N.testbit (nth (N.to_nat k) blooms 0) (N.of_nat i).
 Proof. exact process_section_ok_partial. Qed.
 Print Assumptions C16_process_section_ok_partial.
+
+(* FULL, without the restriction on the size: the complete outcome of processSection on a full section of ANY size
+   that NewGenerator accepts — it commits the transposed blooms when size >= 2048, and otherwise Commit fails with
+   Bitset's "section out of bounds" (at row `size`) and nothing is stored.  The unrestricted "always commits" is
+   false: C16_process_section_ok_refuted (8 zero blooms; replayed by the harness on BloomIndexer.Commit at sizes
+   8/64, note bloombits-bitset-bound-uses-sections). *)
+Theorem C16_process_section_ok :
+  forall (size : N) (blooms : list N),
+  size mod 8 = 0 -> lenN blooms = size ->
+  if 2048 <=? size
+  then exists rows, process_section size blooms = GOk rows /\ length rows = bloom_bit_length /\
+         forall i k, (i < bloom_bit_length)%nat -> k < size ->
+           N.testbit (nth i rows 0) k = N.testbit (nth (N.to_nat k) blooms 0) (N.of_nat i)
+  else process_section size blooms = GErr ErrSectionOutOfBounds.
+Proof. exact process_section_full. Qed.
+Print Assumptions C16_process_section_ok.
+
+Theorem C16_process_section_commits_iff :
+  forall (size : N) (blooms : list N),
+  size mod 8 = 0 -> lenN blooms = size ->
+  ((exists rows, process_section size blooms = GOk rows) <-> 2048 <= size).
+Proof. exact process_section_commits_iff. Qed.
+Print Assumptions C16_process_section_commits_iff.
+
+Theorem C16_process_section_ok_refuted :
+  exists (size : N) (blooms : list N),
+    size mod 8 = 0 /\ lenN blooms = size /\ process_section size blooms = GErr ErrSectionOutOfBounds.
+Proof. exact process_section_ok_refuted. Qed.
+Print Assumptions C16_process_section_ok_refuted.
 
 (* Byte level (Go's []byte vectors: block k at bit 7-k%8 of byte k/8; bitutil ANDBytes/ORBytes/TestBytes;
    Matcher.Start's skip of a zero byte on a byte boundary): the byte-level matcher over the packed
